@@ -93,6 +93,63 @@ def one_case(out: Outcome, rng, cls: str, p: dict, pre: list, post: list, runner
             break
 
 
+def reset_from_callback_case(out: Outcome, rng, cls: str) -> None:
+    """reset() issued from INSIDE a user callback (on_update_end, as soon as the detector flags a drift - the streaming analogue of the library's own
+    ResetStatisticalTest) is a reset like any other: right afterwards the detector reads as new, and from then on it equals a new instance fed the rest"""
+    from frouros.callbacks.streaming.base import BaseCallbackStreaming
+
+    class ResetOnDrift(BaseCallbackStreaming):
+        def __init__(self):
+            super().__init__(name="reset_on_drift")
+            self.fired = 0
+
+        def on_update_end(self, value):
+            if self.detector.drift:
+                self.fired += 1
+                self.detector.reset()
+
+        def reset(self):
+            pass
+
+    p = gen.rand_params(rng, cls)
+    xs = gen.stream_for(rng, cls, rng.randint(150, 400))
+    cb = ResetOnDrift()
+    try:
+        det = dets.make(cls, p, callbacks=[cb])
+    except Exception:  # noqa: BLE001
+        return
+    np.random.seed(rng.randint(0, 2**31 - 1))
+    fresh, seen = None, 0
+    rep = {"class": cls, "params": p, "stream": xs, "kind": "reset from callback"}
+    for t, x in enumerate(xs, 1):
+        st = np.random.get_state()
+        try:
+            det.update(value=x)
+        except Exception as e:  # noqa: BLE001
+            out.violation(f"{cls}: update raised {type(e).__name__}: {e} at stream position {t} (a callback calls reset() when the detector flags a drift)", rep)
+            return
+        if cb.fired > seen:
+            seen = cb.fired
+            fresh = dets.make(cls, p)
+            try:
+                now = dets.obs(cls, det)
+            except Exception as e:  # noqa: BLE001
+                now = f"unreadable ({type(e).__name__}: {e})"
+            if now != dets.obs(cls, fresh):
+                out.violation(f"{cls}: right after reset() called by a callback at update {t} the detector reads {now}, a new instance {dets.obs(cls, fresh)}", rep)
+                return
+            continue
+        if fresh is not None:
+            after = np.random.get_state()
+            np.random.set_state(st)
+            fresh.update(value=x)
+            np.random.set_state(after)
+            if dets.obs(cls, det) != dets.obs(cls, fresh):
+                out.violation(f"{cls}: after a reset() called by a callback the detector differs from a new instance fed the same values (stream position {t})", rep)
+                return
+    out.case({"class": cls, "params": p, "reset_from_callback": True, "resets": cb.fired}, nontrivial=cb.fired > 0)
+
+
 def incks_model(out: Outcome, w: int, ref, pre: list, post: list, impl: list) -> None:
     """the IncrementalKSTest state machine of the model on the same history (fit, updates, reset, fit, updates)"""
     lines = [f"x kn {w}", "x kf " + " ".join(f2h(v) for v in ref)] + [f"x ku {f2h(v)}" for v in pre] + ["x kr", "x kf " + " ".join(f2h(v) for v in ref)] + [f"x ku {f2h(v)}" for v in post]
@@ -198,6 +255,9 @@ def run(out: Outcome) -> None:
                     if last is not None:
                         pre = pre[: last + 1]
             one_case(out, rng, cls, p, pre, post, runners)
+    for cls in dets.CLASSES:
+        for _ in range(3 if thorough else 1):
+            reset_from_callback_case(out, rng, cls)
     data_drift_cases(out, rng, 40 if thorough else 10)
     corr.compare_batch(out, runners)
 
